@@ -34,7 +34,8 @@ LEVEL_TEXT = ("Exploration over programs: thousands of random pipelines (1-8 ste
               " Pipelines with forced renumbering / pruning / file steps on trees of 255 .. 4097 nodes."
               " Pipelines that start from a BranchTree instance (its remembered branches compared for shared storage); removal sets with hundreds of generations below them."
               " The first steps of every pipeline are repeated on twins under custom column names; one big branched, permuted tree (50 000 .. 100 000 nodes) through the renumbering operations; Transforms compared with its members taken out by index."
-              " After every step the poisoned result is followed by the same operation once more (same untouched inputs, same content).")
+              " After every step the poisoned result is followed by the same operation once more (same untouched inputs, same content)."
+              " Steps repeated under other ambient states (numpy error state, warnings as errors, print options, gc off, another cwd, low recursion limit); round trips through a file with a non-ASCII remark.")
 LEVEL_NOTE = ("Contracts cannot see a reference bound before installation that is not a module "
               "attribute; evaluation counters per entry point make that visible (a zero count is "
               "inconclusive). NaN-producing Normalizer inputs (constant columns) are not generated.")
